@@ -2,8 +2,10 @@ PROP = dict(
     id="C06",
     engines=["c06"],
     go_tags=["c06"],
+    extract_files={"MM/Gen/C06.lean": {"cmd": ["go", "run", "{VERIF}/tools/c06_extract.go"]}},
     lean_modules=["MM.Props.C06"],
     theorems=[
+        "MM.C06.C06_constants_tie",
         "MM.C06.C06_advertise_intact",
         "MM.C06.C06_announce_intact",
         "MM.C06.C06_replay_intact",
@@ -25,6 +27,7 @@ PROP = dict(
     trusted_base=[
         "MM/Model/C06.lean: splitRoutes loop, advertiseBudget, path/seen-by extension on forward, Frame.Encode refusal and the classification switch of HandleRouteAdvertise (modelled; tied by T-diff)",
         "net.IPNet/ParseCIDR, routing tables' AddRoute (keys, dedup) are exercised as real code but not modelled: generated routes are distinct and canonical",
+        "tools/c06_extract.go (go/parser): maxRoutesPerAdvertise, advertiseHeadroom, the shape of advertiseBudget and of the splitRoutes test, and that both senders range over splitRoutes, regenerated on every run (MM/Gen/C06.lean, theorem C06_constants_tie)",
         "map iteration order of the Go route sets is arbitrary: the compared observable is the SET of routes in the neighbour's tables",
     ],
     assumptions=[
@@ -43,3 +46,21 @@ PROP = dict(
         technique="Lean 4 proof (codec combinators + loop invariant of the splitter) + differential correspondence harness on real Flooder and routing.Manager",
     ),
 )
+
+
+def before_diff(c):
+    """When the source no longer has the shape the theorems are about (extractor fails, MM.Props.C06 does not build), the
+    model and its driver are still fine: build the driver alone so that the differential run and the failing-input search go
+    ahead and the replay carries a concrete route set that is not learned intact."""
+    import os, shutil, sys
+    vlib = sys.modules["vlib"]
+    if getattr(c, "lake_ok", True) or "c06" in c.drivers or not c.harness:
+        return
+    ok, out, _failed = vlib.lake_build(["drv_c06"])
+    src = os.path.join(vlib.LEAN, ".lake", "build", "bin", "drv_c06")
+    if ok and os.path.exists(src):
+        dst = os.path.join(c.tmp, "drv_c06")
+        shutil.copy2(src, dst)
+        c.drivers["c06"] = dst
+    else:
+        c.oblige("lean:drv_c06-standalone", "thm", False, out[-1500:])
